@@ -302,7 +302,7 @@ func CmdCheck(args []string) int {
 	// must be consumed in the same order.
 	if len(batch) > 0 && os.Getenv("VERIF_NO_NATIVE_SAMPLES") == "" {
 		path := filepath.Join(VerifDir, "replays", id, "samples-"+tier+".json")
-		if err := writeJSON(path, replayFile{Harness: "batch", Pkg: batchPkg, Batch: batch}); err != nil {
+		if err := writeJSON(path, replayFile{Harness: "batch", Pkg: batchPkg, Batch: batch, Known: sortedKeys(activeKnown)}); err != nil {
 			fmt.Fprintln(os.Stderr, err)
 			return 2
 		}
@@ -358,6 +358,15 @@ func handleReplay(rc *int, lines *[]string, problems *[]string, ev *Evidence, id
 	default:
 		*problems = append(*problems, fmt.Sprintf("%s: replay of %q inconclusive (%s): %s", label, v.Assert, res, lastLines(out, 5)))
 	}
+}
+
+func sortedKeys(m map[string]bool) []string {
+	var out []string
+	for k := range m {
+		out = append(out, k)
+	}
+	sort.Strings(out)
+	return out
 }
 
 func lastLines(s string, n int) string {
